@@ -196,6 +196,11 @@ class Conv:
         if k == "assign":
             if s.op in (":=", "="):
                 if len(s.lhs) == 1 and len(s.rhs) == 1:
+                    if self.lang == "c" and s.lhs[0].k == "id" and "[" in str(s.get("decl_type", "")) and s.rhs[0].k == "initlist":
+                        # a local array: keep its name and declared type as the object's identity
+                        init = ast.Tuple(elts=[self.expr(x) for x in s.rhs[0].elts], ctx=ast.Load())
+                        call_ = ast.Call(func=ast.Name(id="__array__", ctx=ast.Load()), args=[ast.Constant(value=s.lhs[0].name), ast.Constant(value=str(s.decl_type)), init], keywords=[])
+                        return [self._at(ast.Assign(targets=[self.target(s.lhs[0])], value=call_), s)]
                     if s.lhs[0].k == "id" and s.lhs[0].name == "_":
                         return [self._at(ast.Expr(value=self.expr(s.rhs[0])), s)]
                     return [self._at(ast.Assign(targets=[self.target(s.lhs[0])], value=self.expr(s.rhs[0])), s)]
